@@ -49,6 +49,19 @@ Proof. intros H0. exact (proj1 (WFx_op_shortcut w ti n how d explicit k H0)). Qe
 
 
 (* ---- removal ---- *)
+(* per-victim form of the keep_children check (a child's data_id among the other siblings); the
+   machine validates with [keep_collides_all]; this local copy keeps the proofs independent of the
+   unused [Machine.keep_collides] *)
+Definition keep_collides (t : tstate) (n : nat) : bool :=
+  match node_loc n (forest_of t) with
+  | Some (_, i, l) =>
+      match nth_error l i with
+      | Some s => existsb (fun c => existsb (fun o => negb (Nat.eqb (rid o) n) && did_eqb (rdid o) (rdid c)) l) (rch s)
+      | None => false
+      end
+  | None => false
+  end.
+
 Lemma detach_spec n f s f1 : detach n f = Some (s, f1) ->
   exists q0 a b, get_ch q0 f = Some (a ++ s :: b) /\ f1 = upd_ch q0 (fun _ => a ++ b) f /\ rid s = n /\ In s (pre_f f).
 Proof.
